@@ -232,12 +232,21 @@ Inductive e2espec :=
 | XTwin (other : e2eobs) (with_labels : bool)
 | XTwinErrClass (other : e2eobs).       (* both fail or both succeed with equal output *)
 
+(** A front end that was killed by the watchdog is shipped as the impossible observation "status 99 with
+    a success message": no model result equals it ([front_eqb]), it neither failed nor succeeded for
+    [c14_ok], and the termination oracle rejects it. *)
+Definition not_hung (o : frontobs) : bool :=
+  match o with
+  | FExit 99 true None | FReturn 99 true None => false
+  | _ => true
+  end.
+
 Definition spec_ok (s : e2espec) (c : e2ecase) : bool :=
   match s with
   | XNone => true
   | XC12 => c12_ok c
   | XC14 must_fail => c14_ok must_fail c
-  | XC15 => match ec_impl c with ETimeout => false | _ => true end
+  | XC15 => match ec_impl c with ETimeout => false | _ => true end && not_hung (ec_api c) && not_hung (ec_cli c)
   | XC17 file line col text => c17_ok file line col text c
   | XTwin other wl =>
       e2eobs_eqb (ec_impl c) other wl &&
